@@ -1,4 +1,7 @@
 """C03 operator call protocol: translator + correspondence + probes."""
+import json
+import os
+
 import numpy as np
 
 from . import common as C
@@ -21,7 +24,7 @@ ASSUMPTIONS = ['exact arithmetic: entries and scalars are small integers / dyadi
                'space.element(v) of a foreign element or ndarray is modelled as a copy (NumPy may share memory)',
                'flat real tensor spaces only in the Coq model; product spaces, complex dtypes, discretized '
                'spaces and all other leaf classes are covered by probes (measured contract), not by the model']
-TRUSTED = ['translate/call_bodies.py (Python ast -> C03/Syntax.v terms), fail-closed',
+TRUSTED = ['translate/call_bodies.py (Python ast -> C03/Syntax.v terms), fail-closed (incl.: a body that writes to x)',
            'C03/Model.v interpreter of the body language and hand-written model of LinearSpace arithmetic '
            '(lincomb regimes, multiply, copy), validated by the correspondence',
            'harness/c03.py tree generator and constructor-recipe registry']
@@ -844,7 +847,17 @@ LEVEL_NOTE = ('Trusted: translate/call_bodies.py (fail-closed ast grammar) and t
               'conditions are necessary. The link between the executed instance (option Q) and the proved one (option R) is '
               'proved (Transfer.v), and the hand-written protocol functions are proved equal to interpreters of the '
               'statement lists regenerated from Operator.__call__/__new__/bridges. N-d shapes and memory layout of '
-              'elements exist only in the probes (6 shape configurations, non-C-contiguous out/x). Axioms: classical '
+              'elements exist only in the probes (8 shape / precision configurations incl. float32, non-C-contiguous '
+              'out/x). ROUNDING is invisible to the model: in exact arithmetic `x += h; ...; x -= h` restores x, so the '
+              'translator rejects every body that writes to x, and `x bit-for-bit unchanged` is measured by the probes: '
+              'tobytes() comparison for x passed as element / matching ndarray handed over directly / nested list, with '
+              'nice, full-mantissa, tiny, huge and mixed-magnitude entries, for every recipe incl. all methods x step '
+              'lengths (dyadic and not) of NumericalGradient / NumericalDerivative and the finite-difference gradient of '
+              'every functional. Call HISTORIES on one operator object (a previous result fed back as input, out of place '
+              'and in place, compared with a fresh operator object) run for every recipe, for every scratch option '
+              '(tmp, tmp_ran, tmp_dom; view-returning operands; derived adjoint / derivative / inverse) and for random '
+              'expressions with user temporaries; search() runs more of them when an obligation breaks. That a result '
+              'may share memory with x or with a user temporary is not a violation and only recorded. Axioms: classical '
               'reals + funext as printed.')
 TECHNIQUE = ('Coq: heap semantics over a poisoned carrier, symbolic execution of source-regenerated `_call` bodies, '
              'structural induction over operator trees; in-Coq differential correspondence; introspection-driven probes')
@@ -1025,19 +1038,32 @@ def _shares_memory(a, b):
     return any(np.shares_memory(u, v) for u in _arrays(a) for v in _arrays(b))
 
 
-def _close(a, b):
+def _single(dt):
+    return np.dtype(dt) in (np.dtype('float32'), np.dtype('complex64'), np.dtype('float16'))
+
+
+def _close(a, b, equal_nan=False, scale=None):
+    """Values agree up to rounding of the element type (float64: 1e-9 relative, float32: 1e-4); with `scale` the
+    absolute tolerance is relative to that magnitude (norm-wise comparison for badly scaled data)."""
     a, b = np.asarray(a), np.asarray(b)
     if a.shape != b.shape:
         return False
     if a.dtype == bool or b.dtype == bool or not _is_float(a.dtype):
         return bool(np.array_equal(a, b))
-    return bool(np.allclose(a, b, rtol=1e-9, atol=1e-11, equal_nan=False))
+    rtol, atol = (1e-4, 1e-5) if (_single(a.dtype) or _single(b.dtype)) else (1e-9, 1e-11)
+    if scale is not None:
+        atol = rtol * float(scale) * 10
+    with np.errstate(all='ignore'):
+        return bool(np.allclose(a, b, rtol=rtol, atol=atol, equal_nan=equal_nan))
 
 
 # probe configurations: name -> shape of the basic space (1-d below / above THRESHOLD_SMALL entries, 2-d and 3-d
 # with distinct and with coinciding axis lengths)
-CFGS = [('small', (3,)), ('large', (120,)), ('nd2', (2, 3)), ('nd2sq', (3, 3)), ('nd3', (3, 3, 2)), ('nd3d', (2, 3, 4))]
+CFGS = [('small', (3,)), ('large', (120,)), ('nd2', (2, 3)), ('nd2sq', (3, 3)), ('nd3', (3, 3, 2)), ('nd3d', (2, 3, 4)),
+        ('f32', (4,)), ('f32nd', (3, 2))]
 CFG_SHAPE = dict(CFGS)
+# single-precision configurations: every recipe is rebuilt on float32 / complex64 spaces
+CFG_DTYPE = {'f32': ('float32', 'complex64'), 'f32nd': ('float32', 'complex64')}
 
 
 class _Recipes(object):
@@ -1052,16 +1078,18 @@ class _Recipes(object):
         n = shape[0]
         nd = len(shape)
         self.n = n
-        self.sp = odl.rn(shape)
-        self.spw = odl.rn(shape, weighting=2.0)
-        self.sp2 = odl.rn((n + 1,) + shape[1:])
-        self.csp = odl.cn(shape)
+        rdt, cdt = CFG_DTYPE.get(cfg, ('float64', 'complex128'))
+        self.rdt, self.cdt = rdt, cdt
+        self.sp = odl.rn(shape, dtype=rdt)
+        self.spw = odl.rn(shape, weighting=2.0, dtype=rdt)
+        self.sp2 = odl.rn((n + 1,) + shape[1:], dtype=rdt)
+        self.csp = odl.cn(shape, dtype=cdt)
         self.isp = odl.tensor_space(shape, dtype=int)
-        self.dsp = odl.uniform_discr([0] * nd, [1] * nd, shape)
+        self.dsp = odl.uniform_discr([0] * nd, [1] * nd, shape, dtype=rdt)
         self.shape2 = shape if nd >= 2 else ((10, 12) if big else (2, 3))
-        self.dsp2 = odl.uniform_discr([0] * len(self.shape2), [1] * len(self.shape2), self.shape2)
+        self.dsp2 = odl.uniform_discr([0] * len(self.shape2), [1] * len(self.shape2), self.shape2, dtype=rdt)
         m = (120 if big else 3)
-        self.cdsp = odl.uniform_discr(0, 1, m if m % 2 == 0 else m + 1, dtype=complex)
+        self.cdsp = odl.uniform_discr(0, 1, m if m % 2 == 0 else m + 1, dtype=cdt)
         self.ps = odl.ProductSpace(self.sp, 2)
         self.pd = odl.ProductSpace(self.dsp2, 2)
 
@@ -1120,6 +1148,29 @@ class _Recipes(object):
         add('OperatorRightScalarMult', 'A0', lambda: O.OperatorRightScalarMult(B(), 0.0))
         add('OperatorRightScalarMult', 'tmp', lambda: O.OperatorRightScalarMult(B(), 2.0, tmp=sp.element()))
         add('OperatorRightScalarMult', 'alias2', lambda: O.OperatorRightScalarMult(self.alias(), 2.0))
+        # every scratch option (tmp, tmp_ran, tmp_dom), with ordinary and with view-returning operands, and the
+        # operators derived from such objects (they inherit the user's temporaries)
+        flat = lambda: odl.FlatteningOperator(odl.rn(self.shape2, dtype=self.rdt))
+        emb = lambda: odl.ComplexEmbedding(sp, scalar=1 + 2j)
+        add('OperatorSum', 'tmp_dom', lambda: O.OperatorSum(A(), B(), tmp_dom=sp.element()))
+        add('OperatorSum', 'tmp_ran,tmp_dom', lambda: O.OperatorSum(A(), B(), tmp_ran=sp.element(), tmp_dom=sp.element()))
+        add('OperatorSum', 'alias+alias tmp_ran', lambda: O.OperatorSum(self.alias(), self.alias(), tmp_ran=sp.element()))
+        add('OperatorSum', 'alias+B tmp_ran', lambda: O.OperatorSum(self.alias(), B(), tmp_ran=sp.element()))
+        add('OperatorSum', 'tmp.adjoint', lambda: O.OperatorSum(A(), B(), tmp_ran=sp.element(), tmp_dom=sp.element()).adjoint)
+        add('OperatorSum', 'tmp.derivative', lambda: O.OperatorSum(A(), B(), tmp_ran=sp.element(),
+                                                                 tmp_dom=sp.element()).derivative(v(sp)))
+        add('OperatorComp', 'alias o B tmp', lambda: O.OperatorComp(self.alias(), B(), tmp=sp.element()))
+        add('OperatorComp', 'B o alias tmp', lambda: O.OperatorComp(B(), self.alias(), tmp=sp.element()))
+        add('OperatorComp', 'alias o alias tmp', lambda: O.OperatorComp(self.alias(), self.alias(), tmp=sp.element()))
+        add('OperatorComp', 'real o embed tmp', lambda: O.OperatorComp(odl.RealPart(csp), emb(), tmp=csp.element()))
+        add('OperatorComp', 'imag o embed tmp', lambda: O.OperatorComp(odl.ImagPart(csp), emb(), tmp=csp.element()))
+        add('OperatorComp', 'flatinv o flat tmp', lambda: O.OperatorComp(flat().inverse, flat(), tmp=flat().range.element()))
+        add('OperatorComp', 'flat o flatinv tmp', lambda: O.OperatorComp(flat(), flat().inverse, tmp=flat().domain.element()))
+        add('OperatorComp', 'tmp.adjoint', lambda: O.OperatorComp(self.alias(), B(), tmp=sp.element()).adjoint)
+        add('OperatorComp', 'tmp.derivative', lambda: O.OperatorComp(self.alias(), B(), tmp=sp.element()).derivative(v(sp)))
+        add('OperatorComp', 'tmp.inverse', lambda: O.OperatorComp(self.alias(), A(), tmp=sp.element()).inverse)
+        add('OperatorRightScalarMult', 'alias2 tmp', lambda: O.OperatorRightScalarMult(self.alias(), 2.0, tmp=sp.element()))
+        add('OperatorRightScalarMult', 'tmp*3', lambda: O.OperatorRightScalarMult(B(), 2.0, tmp=sp.element()) * 3.0)
         add('FunctionalLeftVectorMult', 'v*f', lambda: O.FunctionalLeftVectorMult(f(), v(sp)))
         add('OperatorLeftVectorMult', 'v*A', lambda: O.OperatorLeftVectorMult(A(), v(sp)))
         add('OperatorLeftVectorMult', 'v*alias', lambda: O.OperatorLeftVectorMult(self.alias(), v(sp)))
@@ -1183,7 +1234,7 @@ class _Recipes(object):
         add('MatrixOperator', 'dense', lambda: odl.MatrixOperator(self.mat(n + 1, n)))
         add('MatrixOperator', 'sparse', lambda: odl.MatrixOperator(__import__('scipy.sparse').sparse.csr_matrix(self.mat(n, n))))
         add('MatrixOperator', 'axis', lambda: odl.MatrixOperator(self.mat(4, self.shape2[1]),
-                                                                 domain=odl.rn(self.shape2), axis=1))
+                                                                 domain=odl.rn(self.shape2, dtype=self.rdt), axis=1))
         for k in range(len(self.shape)):
             for m_ in (self.shape[k], self.shape[k] + 1):
                 add('MatrixOperator', 'nd-axis%d-%dx%d' % (k, m_, self.shape[k]),
@@ -1209,18 +1260,18 @@ class _Recipes(object):
         add('LinDeformFixedDisp', 'nd', lambda: odl.deform.LinDeformFixedDisp(
             odl.ProductSpace(dsp, len(self.shape)).element([v(dsp, 'unit') for _ in self.shape])))
         add('Resampling', 'nd', lambda: odl.Resampling(
-            dsp, odl.uniform_discr([0] * len(self.shape), [1] * len(self.shape), tuple(2 * t for t in self.shape)),
+            dsp, odl.uniform_discr([0] * len(self.shape), [1] * len(self.shape), tuple(2 * t for t in self.shape), dtype=self.rdt),
             interp='nearest'))
         add('DiscreteFourierTransform', 'nd', lambda: odl.trafos.DiscreteFourierTransform(
-            odl.uniform_discr([0] * len(self.shape), [1] * len(self.shape), self.shape, dtype=complex)))
+            odl.uniform_discr([0] * len(self.shape), [1] * len(self.shape), self.shape, dtype=self.cdt)))
         add('DiscreteFourierTransform', 'nd-real-axes', lambda: odl.trafos.DiscreteFourierTransform(dsp, axes=(0,)))
         add('FourierTransform', 'nd', lambda: odl.trafos.FourierTransform(
-            odl.uniform_discr([0] * len(self.shape), [1] * len(self.shape), self.shape, dtype=complex)))
-        add('FlatteningOperator', 'C', lambda: odl.FlatteningOperator(odl.rn(self.shape2)))
-        add('FlatteningOperator', 'F', lambda: odl.FlatteningOperator(odl.rn(self.shape2), order='F'))
-        add('FlatteningOperatorInverse', 'C', lambda: odl.FlatteningOperator(odl.rn(self.shape2)).inverse)
+            odl.uniform_discr([0] * len(self.shape), [1] * len(self.shape), self.shape, dtype=self.cdt)))
+        add('FlatteningOperator', 'C', lambda: odl.FlatteningOperator(odl.rn(self.shape2, dtype=self.rdt)))
+        add('FlatteningOperator', 'F', lambda: odl.FlatteningOperator(odl.rn(self.shape2, dtype=self.rdt), order='F'))
+        add('FlatteningOperatorInverse', 'C', lambda: odl.FlatteningOperator(odl.rn(self.shape2, dtype=self.rdt)).inverse)
         for dname, dspace in (('discr', dsp), ('discr2', dsp2), ('tensor', sp),
-                              ('discr-unitcell', odl.uniform_discr([0] * len(self.shape), list(self.shape), self.shape))):
+                              ('discr-unitcell', odl.uniform_discr([0] * len(self.shape), list(self.shape), self.shape, dtype=self.rdt))):
             nd_ = len(dspace.shape)
             size_ = int(np.prod(dspace.shape))
             last = [t - 1 for t in dspace.shape]
@@ -1260,8 +1311,8 @@ class _Recipes(object):
         add('Laplacian', 'constant', lambda: odl.Laplacian(dsp2))
         add('Laplacian', 'symmetric', lambda: odl.Laplacian(dsp2, pad_mode='symmetric'))
         add('Laplacian', 'padconst', lambda: odl.Laplacian(dsp2, pad_const=2.0))
-        add('Resampling', 'up', lambda: odl.Resampling(dsp, odl.uniform_discr(0, 1, 2 * n), interp='nearest'))
-        add('Resampling', 'down', lambda: odl.Resampling(odl.uniform_discr(0, 1, 2 * n), dsp, interp='linear'))
+        add('Resampling', 'up', lambda: odl.Resampling(dsp, odl.uniform_discr(0, 1, 2 * n, dtype=self.rdt), interp='nearest'))
+        add('Resampling', 'down', lambda: odl.Resampling(odl.uniform_discr(0, 1, 2 * n, dtype=self.rdt), dsp, interp='linear'))
         for pm in ('constant', 'symmetric', 'periodic', 'order0', 'order1'):
             add('ResizingOperator', pm, (lambda pm=pm: odl.ResizingOperator(dsp, ran_shp=(n + 2,), pad_mode=pm)))
         add('ResizingOperator', 'crop', lambda: odl.ResizingOperator(dsp, ran_shp=(n - 1,)))
@@ -1270,24 +1321,24 @@ class _Recipes(object):
         # ---- trafos
         add('DiscreteFourierTransform', 'cn', lambda: odl.trafos.DiscreteFourierTransform(self.cdsp))
         add('DiscreteFourierTransform.real_pyfftw', 'real-to-complex', lambda: odl.trafos.DiscreteFourierTransform(
-            odl.uniform_discr(0, 1, self.cdsp.shape[0])))
+            odl.uniform_discr(0, 1, self.cdsp.shape[0], dtype=self.rdt)))
         add('DiscreteFourierTransform', 'pyfftw', lambda: odl.trafos.DiscreteFourierTransform(self.cdsp, impl='pyfftw'))
         for impl in ('numpy', 'pyfftw'):
             for hc in (True, False):
                 add('DiscreteFourierTransformInverse', 'real-hc%s-%s' % (hc, impl),
                     (lambda impl=impl, hc=hc: odl.trafos.DiscreteFourierTransform(
-                        odl.uniform_discr(0, 1, self.cdsp.shape[0]), halfcomplex=hc, impl=impl).inverse))
+                        odl.uniform_discr(0, 1, self.cdsp.shape[0], dtype=self.rdt), halfcomplex=hc, impl=impl).inverse))
                 add('DiscreteFourierTransform', 'real-hc%s-%s' % (hc, impl),
                     (lambda impl=impl, hc=hc: odl.trafos.DiscreteFourierTransform(
-                        odl.uniform_discr(0, 1, self.cdsp.shape[0]), halfcomplex=hc, impl=impl)))
+                        odl.uniform_discr(0, 1, self.cdsp.shape[0], dtype=self.rdt), halfcomplex=hc, impl=impl)))
         add('DiscreteFourierTransformInverse', 'cn', lambda: odl.trafos.DiscreteFourierTransform(self.cdsp).inverse)
         add('DiscreteFourierTransformInverse', 'pyfftw', lambda: odl.trafos.DiscreteFourierTransform(self.cdsp, impl='pyfftw').inverse)
         add('FourierTransform', 'cn', lambda: odl.trafos.FourierTransform(self.cdsp))
-        add('FourierTransform.real', 'real', lambda: odl.trafos.FourierTransform(odl.uniform_discr(0, 1, self.cdsp.shape[0])))
+        add('FourierTransform.real', 'real', lambda: odl.trafos.FourierTransform(odl.uniform_discr(0, 1, self.cdsp.shape[0], dtype=self.rdt)))
         add('FourierTransform', 'pyfftw', lambda: odl.trafos.FourierTransform(self.cdsp, impl='pyfftw'))
         add('FourierTransformInverse', 'cn', lambda: odl.trafos.FourierTransform(self.cdsp).inverse)
-        add('WaveletTransform', 'haar', lambda: odl.trafos.WaveletTransform(odl.uniform_discr(0, 1, 128 if self.big else 8), 'haar', nlevels=2))
-        add('WaveletTransformInverse', 'haar', lambda: odl.trafos.WaveletTransform(odl.uniform_discr(0, 1, 128 if self.big else 8), 'haar', nlevels=2).inverse)
+        add('WaveletTransform', 'haar', lambda: odl.trafos.WaveletTransform(odl.uniform_discr(0, 1, 128 if self.big else 8, dtype=self.rdt), 'haar', nlevels=2))
+        add('WaveletTransformInverse', 'haar', lambda: odl.trafos.WaveletTransform(odl.uniform_discr(0, 1, 128 if self.big else 8, dtype=self.rdt), 'haar', nlevels=2).inverse)
         # ---- deform
         add('LinDeformFixedTempl', '1d', lambda: odl.deform.LinDeformFixedTempl(v(dsp)), 'unit')
         add('LinDeformFixedDisp', '1d', lambda: odl.deform.LinDeformFixedDisp(odl.ProductSpace(dsp, 1).element([v(dsp, 'unit')])))
@@ -1325,6 +1376,19 @@ class _Recipes(object):
         add('RosenbrockFunctional', 'rn', lambda: S.RosenbrockFunctional(sp))
         add('NumericalGradient', 'f', lambda: S.NumericalGradient(f()))
         add('NumericalDerivative', 'A', lambda: S.NumericalDerivative(odl.ufunc_ops.square(sp), v(sp)))
+        # every method x step lengths (default, dyadic, non-dyadic small / large)
+        for meth in ('forward', 'backward', 'central'):
+            for step in ((None, 1e-4) if self.big else (None, 1e-4, 1e-6, 0.1, 0.5)):
+                for fname, fmk in (('l2sq', f), ('l1', g)):
+                    if fname == 'l1' and step not in (1e-4, 0.1):
+                        continue
+                    add('NumericalGradient', '%s-%s-%s' % (fname, meth, step),
+                        (lambda meth=meth, step=step, fmk=fmk: S.NumericalGradient(fmk(), method=meth, step=step)))
+                add('NumericalDerivative', 'square-%s-%s' % (meth, step),
+                    (lambda meth=meth, step=step: S.NumericalDerivative(odl.ufunc_ops.square(sp), v(sp),
+                                                                        method=meth, step=step)))
+            add('NumericalDerivative', 'of-numgrad-%s' % meth,
+                (lambda meth=meth: S.NumericalGradient(f(), method=meth, step=1e-4).derivative(v(sp))))
         # ---- functional.py arithmetic
         add('FunctionalLeftScalarMult', '2f', lambda: 2.0 * f())
         add('FunctionalRightScalarMult', 'f2', lambda: f() * 2.0)
@@ -1395,6 +1459,22 @@ class _Recipes(object):
                 add('%s.proximal(%s)' % (name, sig), (lambda mk=mk, sig=sig: mk().proximal(sig)), kind)
                 add('%s.convex_conj.proximal(%s)' % (name, sig), (lambda mk=mk, sig=sig: mk().convex_conj.proximal(sig)),
                     'prob' if name in posfun else 'any')
+            # non-dyadic step sizes (labels starting with '~' run in the thorough tier only)
+            for sig in ((0.3,) if self.rdt == 'float32' else (0.3, 0.02)):   # exp(x / 0.02) overflows float32
+                add('~%s.proximal(%s)' % (name, sig), (lambda mk=mk, sig=sig: mk().proximal(sig)), kind)
+                add('~%s.convex_conj.proximal(%s)' % (name, sig), (lambda mk=mk, sig=sig: mk().convex_conj.proximal(sig)),
+                    'prob' if name in posfun else 'any')
+
+            def deriv(mk=mk, kind=kind):
+                fn = mk()
+                return fn.derivative(_rand(fn.domain, self.rng, kind))
+            add('%s.derivative' % name, deriv, kind)
+            # finite-difference gradient of every functional, non-dyadic step, all methods
+            for meth in ('forward', 'backward', 'central'):
+                if name.startswith('Indicator'):
+                    break               # values 0 / inf: a difference quotient is inf - inf
+                add('%s%s.numgrad-%s' % ('' if (meth == 'forward' and not self.big) else '~', name, meth),
+                    (lambda mk=mk, meth=meth: S.NumericalGradient(mk(), method=meth, step=1e-4)), kind)
             add('%s.convex_conj' % name, (lambda mk=mk: mk().convex_conj), 'prob' if name in posfun else 'any')
             add('%s.convex_conj.gradient' % name, (lambda mk=mk: mk().convex_conj.gradient), 'prob' if name in posfun else 'any')
         # proximal factories called directly, all options
@@ -1453,7 +1533,8 @@ def _ufunc_ops(rng, cfg):
     for entry in UFUNCS:
         name = entry[0]
         kind = UFUNC_INPUT.get(name, 'any')
-        for tag, sp in (('float', odl.rn(n)), ('int', odl.tensor_space(n, dtype=int))):
+        for tag, sp in (('float', odl.rn(n, dtype=CFG_DTYPE.get(cfg, ('float64',))[0])),
+                        ('int', odl.tensor_space(n, dtype=int))):
             out.append(('%s-%s' % (name, tag), (lambda name=name, sp=sp: getattr(odl.ufunc_ops, name)(sp)),
                         kind, name))
         out.append(('%s-field' % name, (lambda name=name: getattr(odl.ufunc_ops, name)(odl.RealNumbers())),
@@ -1466,7 +1547,7 @@ def _snippet(setup, label):
             "ok, observed = c03.replay_probe(%r, %r)\n" % (C.VERIF, setup, label))
 
 
-def probe_operator(op, kind, rng, cls, label, sizeclass, setup):
+def probe_operator(op, kind, rng, cls, label, sizeclass, setup, rebuild=None):
     """Evaluate the property on one operator instance.  Returns a list of C.Probe."""
     import odl
     from odl.operator.operator import OpDomainError, OpRangeError
@@ -1475,7 +1556,8 @@ def probe_operator(op, kind, rng, cls, label, sizeclass, setup):
 
     def P(ok, clause, what, detail=None):
         # memory-layout clauses are keyed without the size configuration (the same 1-d recipes recur in every one)
-        key = ('%s:%s' % (cls, clause)) if '-layout-' in clause else '%s:%s:%s' % (cls, clause, sizeclass)
+        key = ('%s:%s' % (cls, clause)) if ('-layout-' in clause or clause == 'zero-input') \
+            else '%s:%s:%s' % (cls, clause, sizeclass)
         res.append(C.Probe(bool(ok), key, '%s %s: %s' % (tag, sizeclass, what), _snippet(setup, clause), detail))
 
     dom, ran = op.domain, op.range
@@ -1591,6 +1673,29 @@ def probe_operator(op, kind, rng, cls, label, sizeclass, setup):
                   'out of the same shape from another space raises OpRangeError; neither x nor out touched')
             except Exception as e:      # noqa
                 P(False, 'reject-range-sameshape', 'foreign out raised %s instead of OpRangeError' % type(e).__name__)
+    if not scalar_dom and kind == 'any':
+        # the zero element: a linear operator maps it to zero; any operator either refuses it with a domain-type
+        # error or returns an element of the range (an OpRangeError is `result not in range`)
+        z = dom.zero()
+        zb = _flat(z).tobytes()
+        try:
+            rz = op(z)
+            okz = (rz in ran) and _flat(z).tobytes() == zb
+            if okz and op.is_linear and not functional:
+                okz = not np.any(_flat(rz))
+            if okz and not functional:
+                yz = _poison(ran)
+                okz = op(z, out=yz) is yz and _close(_flat(yz), _flat(rz), equal_nan=True)
+            P(okz, 'zero-input', 'op(0) is in the range (0 for a linear operator), op(0, out=y) agrees, input unchanged')
+        except OpRangeError as e:
+            P(False, 'zero-input', 'op(0) raised OpRangeError: %s' % str(e)[:100])
+        except Exception as e:      # noqa
+            if op.is_linear:
+                P(False, 'zero-input', 'linear operator: op(0) raised %s: %s' % (type(e).__name__, str(e)[:100]))
+    if not scalar_dom:
+        _probe_inputs(op, kind, rng, x, P)
+        if not functional and rebuild is not None:
+            _probe_history(op, rebuild, kind, rng, P)
     if isinstance(dom, odl.ProductSpace) and len(dom) >= 1 and not scalar_dom:
         parts = list(x)
         for lab, bad in (('too-long', parts + [parts[-1].copy()]), ('too-short', parts[:-1])):
@@ -1619,6 +1724,342 @@ def probe_operator(op, kind, rng, cls, label, sizeclass, setup):
     except Exception as e:      # noqa
         P(False, 'reject-domain', 'a string argument raised %s instead of OpDomainError' % type(e).__name__)
     return res
+
+
+def _scaled(space, rng, kind, how):
+    """An element whose entries use the whole mantissa (`mant`), additionally scaled to tiny / huge magnitudes or to
+    magnitudes differing by 18 orders (`mixed`).  None when the space has no floating-point entries."""
+    import odl
+    if isinstance(space, odl.ProductSpace):
+        parts = [_scaled(s, rng, kind, how) for s in space.spaces]
+        return None if (not parts or any(p_ is None for p_ in parts)) else space.element(parts)
+    if not hasattr(space, 'dtype') or not hasattr(space, 'shape') or isinstance(space, odl.set.sets.Field):
+        return None
+    dt = np.dtype(space.dtype)
+    if not _is_float(dt):
+        return None
+    n = int(np.prod(space.shape))
+    lo, hi = {'any': (-3, 3), 'pos': (0.1, 3), 'unit': (-1, 1), 'prob': (0.01, 0.99), 'ge1': (1, 3)}[kind]
+
+    def draw():
+        a = np.array([rng.uniform(lo, hi) for _ in range(n)])
+        if how == 'tiny':
+            a = a * 1e-9
+        elif how == 'huge':
+            a = a * 1e9
+        elif how == 'mixed':
+            a = a * np.array([10.0 ** rng.choice((-12, -6, 0, 6)) for _ in range(n)])
+        return a
+    arr = draw()
+    if np.issubdtype(dt, np.complexfloating):
+        arr = arr + 1j * draw()
+    return space.element(arr.astype(dt).reshape(space.shape))
+
+
+def _raw(x, how):
+    """The values of element x as `how` = 'ndarray' (C-contiguous array of the space's dtype and shape: what
+    `space.element` wraps WITHOUT copying) or 'list' (nested lists); product-space elements give a list of those.
+    Returns (object, [ndarrays inside it])."""
+    import odl
+    sp = getattr(x, 'space', None)
+    if isinstance(sp, odl.ProductSpace):
+        objs, watch = [], []
+        for part in x:
+            o, w = _raw(part, how)
+            objs.append(o)
+            watch += w
+        return objs, watch
+    a = np.array(np.asarray(x), dtype=sp.dtype, order='C', copy=True).reshape(sp.shape)
+    if how == 'ndarray':
+        return a, [a]
+    return a.tolist(), []
+
+
+def _probe_inputs(op, kind, rng, x, P):
+    """`x bit-for-bit unchanged` for every way of passing the input -- element, matching ndarray handed over
+    directly (wrapped without a copy by domain.element, so the operator works on the caller's memory), nested
+    list -- and for inputs with full-mantissa / tiny / huge / mixed-magnitude entries; out of place and in place.
+    The values must agree with the call on the element."""
+    import odl
+    import warnings
+    dom, ran = op.domain, op.range
+    functional = isinstance(ran, odl.set.sets.Field)
+    hows = ['mant'] + (['tiny', 'huge', 'mixed'] if kind in ('any', 'pos') else ['tiny'] if kind in ('unit', 'prob')
+                       else [])
+    variants = [('nice', x)]
+    for h in hows:
+        xv = _scaled(dom, rng, kind, h)
+        if xv is not None:
+            variants.append((h, xv))
+    with warnings.catch_warnings(), np.errstate(all='ignore'):
+        warnings.simplefilter('ignore')
+        for vlab, xv in variants:
+            xb = _flat(xv).tobytes()
+            try:
+                ref = op(xv)
+            except Exception as e:      # noqa
+                # no claim about values outside the nice range, but x must not have been modified
+                P(_flat(xv).tobytes() == xb, 'x-changed-%s' % vlab, 'x bit-for-bit unchanged by a raising op(x) '
+                  '(%s entries; %s)' % (vlab, type(e).__name__))
+                continue
+            vref = np.array([ref]) if functional else np.array(_flat(ref), copy=True)
+            scale = max([1e-300] + [float(np.max(np.abs(t))) for t in (_flat(xv), vref)
+                                    if t.size and np.all(np.isfinite(t))])
+            # overflow (inf / inf - inf) at badly scaled inputs: no claim about values, only about x
+            finite = bool(np.all(np.isfinite(vref)))
+
+            def agree(a_, b_):
+                return (not finite) or _close(a_, b_, equal_nan=True, scale=scale)
+            if vlab != 'nice':
+                P(_flat(xv).tobytes() == xb, 'x-changed-%s' % vlab,
+                  'x (%s entries) bit-for-bit unchanged by op(x)' % vlab,
+                  {'x_before': np.frombuffer(xb, dtype=_flat(xv).dtype)[:6].tolist(), 'x_after': _flat(xv)[:6].tolist()})
+                if not functional:
+                    y = _poison(ran)
+                    try:
+                        r = op(xv, out=y)
+                        P(r is y and agree(_flat(y), vref) and _flat(xv).tobytes() == xb,
+                          'ip-%s' % vlab, 'op(x, out=y) with %s entries returns y holding the values of op(x), x '
+                          'bit-for-bit unchanged' % vlab, {'oop': vref[:6].tolist(), 'ip': _flat(y)[:6].tolist()})
+                    except Exception as e:      # noqa
+                        P(False, 'ip-%s' % vlab, 'op(x, out=y) with %s entries raised %s: %s'
+                          % (vlab, type(e).__name__, str(e)[:80]))
+            for how in ('ndarray', 'list'):
+                if how == 'list' and vlab not in ('nice', 'mant'):
+                    continue
+                try:
+                    obj, watch = _raw(xv, how)
+                    dom.element(_raw(xv, how)[0])
+                except Exception:      # noqa
+                    continue            # the space does not take this kind of input
+                before = [w.tobytes() for w in watch] + [repr(obj)]
+                clause = 'input-%s-%s' % (how, vlab)
+                try:
+                    r = op(obj)
+                    vr = np.array([r]) if functional else _flat(r)
+                    same = [w.tobytes() for w in watch] + [repr(obj)] == before
+                    ok = same and agree(vr, vref)
+                    what = ('op(a) with a = the entries of x as %s (%s entries): a bit-for-bit unchanged and the '
+                            'values of op(x)' % (how, vlab))
+                    detail = {'input_unchanged': same, 'oop_element': vref[:6].tolist(), 'oop_raw': vr[:6].tolist()}
+                    if ok and not functional:
+                        y = _poison(ran)
+                        r = op(obj, out=y)
+                        same = [w.tobytes() for w in watch] + [repr(obj)] == before
+                        ok = same and r is y and agree(_flat(y), vref)
+                        what = ('op(a, out=y) with a = the entries of x as %s (%s entries): a bit-for-bit unchanged, '
+                                'y holds the values of op(x)' % (how, vlab))
+                        detail = {'input_unchanged': same, 'oop_element': vref[:6].tolist(), 'ip_raw': _flat(y)[:6].tolist()}
+                    P(ok, clause, what, detail)
+                except Exception as e:      # noqa
+                    P(False, clause, 'call with the entries of x as %s (%s entries) raised %s: %s'
+                      % (how, vlab, type(e).__name__, str(e)[:80]))
+
+
+def _in_kind(x, kind):
+    """The entries of x satisfy the input restriction `kind` of a recipe."""
+    a = _flat(x)
+    if not _is_float(a.dtype):
+        return True
+    if kind == 'any':
+        return bool(np.all(np.isfinite(a)))
+    if not np.all(np.isfinite(a)):
+        return False
+    a = np.abs(a) if np.iscomplexobj(a) else a
+    return bool({'pos': np.all(a > 0), 'unit': np.all(np.abs(a) <= 1), 'prob': np.all((a > 0) & (a < 1)),
+                 'ge1': np.all(a >= 1)}[kind])
+
+
+def _probe_history(op, rebuild, kind, rng, P):
+    """Call histories on ONE operator object: a previous result is fed back as the input (x = op(x); op(x)).  The
+    call must leave that input bit-for-bit unchanged, and give the values a FRESH operator object (same
+    constructor arguments, own scratch memory) gives on a copy; out of place and in place."""
+    import warnings
+    dom, ran = op.domain, op.range
+    if ran != dom:
+        return
+    with warnings.catch_warnings(), np.errstate(all='ignore'):
+        warnings.simplefilter('ignore')
+        x0 = _rand(dom, rng, kind)
+        try:
+            fresh = rebuild()
+            for mode in ('oop', 'ip'):
+                x1 = op(x0)
+                if x1 not in dom or not _in_kind(x1, kind) or not np.any(_flat(x1)):
+                    return              # the result is no admissible input of this operator (e.g. log of x <= 0);
+                    #                     the zero element has its own clause (zero-input)
+                keep = x1.copy()
+                x1b = _flat(x1).tobytes()
+                want = np.array(_flat(fresh(keep)), copy=True)
+                if mode == 'oop':
+                    x2 = op(x1)
+                else:
+                    x2 = _poison(ran)
+                    op(x1, out=x2)
+                same = _flat(x1).tobytes() == x1b
+                P(same, 'history-x-changed-%s' % mode,
+                  'x = op(x0); then %s: x (a previous result of this operator object) bit-for-bit unchanged by the '
+                  'call' % ('op(x)' if mode == 'oop' else 'op(x, out=y)'),
+                  {'x_before': _flat(keep)[:6].tolist(), 'x_after': _flat(x1)[:6].tolist()})
+                if np.all(np.isfinite(want)):
+                    P(_close(_flat(x2), want, equal_nan=True), 'history-value-%s' % mode,
+                      'x = op(x0); then %s has the values a fresh operator object gives on a copy of x'
+                      % ('op(x)' if mode == 'oop' else 'op(x, out=y)'),
+                      {'fresh': want[:6].tolist(), 'got': _flat(x2)[:6].tolist()})
+        except Exception as e:      # noqa
+            P(False, 'history-raises', 'x = op(x0); op(x) raised %s: %s' % (type(e).__name__, str(e)[:80]))
+
+
+def _expr_tree(R, rng, depth):
+    """A random expression over the classes of operator.py on R.sp -> R.sp.  Every node that takes scratch memory
+    (tmp, tmp_ran, tmp_dom) gets its OWN user-supplied temporaries with probability 1/2; leaves include the
+    view-returning operators (RealPart / ImagPart of a complex embedding, flattening and its inverse)."""
+    odl, O, sp = R.odl, R.odl.operator.operator, R.sp
+    if depth <= 0 or rng.random() < 0.2:
+        pick = rng.randrange(8)
+        if pick == 0:
+            return odl.ScalingOperator(sp, rng.choice((3.0, -0.5, 0.0, 1.0)))
+        if pick == 1:
+            return odl.MultiplyOperator(R.v(sp))
+        if pick == 2:
+            return odl.RealPart(sp)
+        if pick == 3:
+            return odl.IdentityOperator(sp)
+        if pick == 4:
+            return odl.PowerOperator(sp, 2)
+        if pick == 5:
+            emb = odl.ComplexEmbedding(sp, scalar=rng.choice((1 + 2j, 2j, 1.0)))
+            part = rng.choice((odl.RealPart, odl.ImagPart))(R.csp)
+            return O.OperatorComp(part, emb, tmp=(R.csp.element() if rng.random() < 0.5 else None))
+        if pick == 6 and len(R.shape) >= 2:
+            fl = odl.FlatteningOperator(sp)
+            return O.OperatorComp(fl.inverse, fl, tmp=(fl.range.element() if rng.random() < 0.5 else None))
+        return odl.ConstantOperator(R.v(sp))
+    t = lambda: (sp.element() if rng.random() < 0.5 else None)
+    sub = lambda: _expr_tree(R, rng, depth - 1)
+    pick = rng.randrange(8)
+    if pick == 0:
+        return O.OperatorSum(sub(), sub(), tmp_ran=t(), tmp_dom=t())
+    if pick == 1:
+        return O.OperatorComp(sub(), sub(), tmp=t())
+    if pick == 2:
+        return O.OperatorRightScalarMult(sub(), rng.choice((2.0, 0.0, -1.5)), tmp=t())
+    if pick == 3:
+        return O.OperatorLeftScalarMult(sub(), rng.choice((2.0, 0.0, -1.5)))
+    if pick == 4:
+        return O.OperatorVectorSum(sub(), R.v(sp))
+    if pick == 5:
+        return O.OperatorLeftVectorMult(sub(), R.v(sp))
+    if pick == 6:
+        return O.OperatorRightVectorMult(sub(), R.v(sp))
+    return O.OperatorPointwiseProduct(sub(), sub())
+
+
+def _tree_builder(cfg, seed, i):
+    """A repeatable builder of the i-th random expression of (cfg, seed)."""
+    import random
+
+    def build():
+        rng = random.Random(seed * 7919 + i * 104729 + 17)
+        return _expr_tree(_Recipes(rng, cfg), rng, 1 + i % 3)
+    return build
+
+
+def _long_history(op, rebuild, rng, P, steps=6):
+    """A longer call history on ONE operator object.  Every step calls it out of place or in place on a new
+    random input, on the previous result, or on an earlier result.  Obligations per step: the input is
+    bit-for-bit unchanged by the call, and the values are those a fresh operator object gives on a copy."""
+    import warnings
+    dom, ran = op.domain, op.range
+    if dom != ran:
+        return
+    with warnings.catch_warnings(), np.errstate(all='ignore'):
+        warnings.simplefilter('ignore')
+        try:
+            results = []
+            trace = []
+            for step in range(steps):
+                src = rng.choice(('new', 'prev', 'earlier')) if results else 'new'
+                x = _rand(dom, rng) if src == 'new' else (results[-1] if src == 'prev' else rng.choice(results))
+                mode = rng.choice(('oop', 'ip'))
+                trace.append('%s(%s)' % (mode, src))
+                keep = x.copy()
+                xb = _flat(x).tobytes()
+                want = np.array(_flat(rebuild()(keep)), copy=True)
+                if mode == 'oop':
+                    r = op(x)
+                else:
+                    r = _poison(ran)
+                    op(x, out=r)
+                same = _flat(x).tobytes() == xb
+                hist = ' -> '.join(trace)
+                P(same, 'history-x-changed-%s' % mode, 'call history %s: the input of the last call (%s) is '
+                  'bit-for-bit unchanged by that call' % (hist, {'new': 'a new element', 'prev': 'the previous '
+                                                                   'result', 'earlier': 'an earlier result'}[src]),
+                  {'x_before': _flat(keep)[:6].tolist(), 'x_after': _flat(x)[:6].tolist()})
+                if not np.all(np.isfinite(want)):
+                    return              # overflow: the history has left the finite numbers, no further claim
+                P(_close(_flat(r), want, equal_nan=True), 'history-value-%s' % mode,
+                  'call history %s: the last call gives the values of a fresh operator object on a copy of its input'
+                  % hist, {'fresh': want[:6].tolist(), 'got': _flat(r)[:6].tolist()})
+                if not same:
+                    return
+                results.append(r)
+        except Exception as e:      # noqa
+            P(False, 'history-raises', 'call history %s raised %s: %s' % (' -> '.join(trace), type(e).__name__,
+                                                                         str(e)[:80]))
+
+
+def tree_probes(cfg, seed, i):
+    """All clauses of probe_operator plus a long call history for the i-th random expression of (cfg, seed)."""
+    import random
+    build = _tree_builder(cfg, seed, i)
+    setup = ('tree', cfg, seed, i)
+    op = build()
+    res = probe_operator(op, 'any', random.Random(seed + i), 'ExprTree', 'tree %d' % i, cfg, setup, rebuild=build)
+
+    def P(ok, clause, what, detail=None):
+        res.append(C.Probe(bool(ok), 'ExprTree:%s:%s' % (clause, cfg), 'ExprTree[tree %d] %s: %s' % (i, cfg, what),
+                           _snippet(setup, clause), detail))
+    _long_history(build(), build, random.Random(seed + i + 1), P)
+    return res
+
+
+def search(rng, broken):
+    """Directed search for a concrete input when an obligation broke but no probe failed: call histories (results
+    fed back as inputs, out of place and in place) on operator objects built with every scratch option -- the
+    scratch-option recipes with more seeds and a larger number of random expressions with user temporaries."""
+    import random
+    known = {}
+    try:
+        known = json.load(open(os.path.join(C.VERIF, 'findings', 'C03.json')))
+    except Exception:      # noqa
+        pass
+    for rnd in range(4):
+        seed = rng.randrange(10 ** 6)
+        for cfg, _shape in CFGS:
+            for i in range(40):
+                try:
+                    ps = tree_probes(cfg, seed, i)
+                except Exception:      # noqa
+                    continue
+                for p in ps:
+                    if not p.ok and p.key not in known:
+                        return p
+            recs = _all_recipes(random.Random(seed), cfg)
+            for idx, (cls, label, build, kind) in enumerate(recs):
+                if 'tmp' not in label:
+                    continue
+                try:
+                    op = build()
+                except Exception:      # noqa
+                    continue
+                name = cls or type(op).__name__
+                for p in probe_operator(op, kind, random.Random(seed + 1), name, label, cfg, (cfg, idx, seed),
+                                        rebuild=build):
+                    if not p.ok and p.key not in known:
+                        return p
+    return None
 
 
 def big_layout_probes(rng):
@@ -1702,6 +2143,7 @@ def big_layout_probes(rng):
 
 def _all_recipes(rng, cfg):
     """[(class name, label, builder, kind, setup-key)]"""
+    base = rng.randrange(2 ** 30)
     R = _Recipes(rng, cfg)
     out = []
     for cls, lst in sorted(R.table().items()):
@@ -1711,7 +2153,16 @@ def _all_recipes(rng, cfg):
         out.append((None, label, build, kind))
     for label, build, kind, name in _ufunc_ops(rng, cfg):
         out.append(('ufunc_' + name, label, build, kind))
-    return out
+
+    def fixed(idx, build):
+        # the random vectors / matrices of recipe idx depend on (seed, idx) only: calling the builder again gives
+        # a second, independent operator object with identical data (replays, and the `fresh operator` of the
+        # call-history clauses)
+        def again():
+            rng.seed(base * 100003 + idx)
+            return build()
+        return again
+    return [(cls, label, fixed(i, build), kind) for i, (cls, label, build, kind) in enumerate(out)]
 
 
 def enumerate_classes():
@@ -1751,13 +2202,17 @@ ABSTRACT_BASES = ('Functional', 'DiscreteFourierTransformBase', 'FourierTransfor
 def replay_probe(setup, clause):
     """Re-run one recipe (identified by (big, index, seed)) and report the named clause."""
     import random
+    if setup[0] == 'tree':
+        ps = tree_probes(*setup[1:])
+        bad = [p for p in ps if not p.ok and p.key.split(':')[1] == clause]
+        return (not bad), [p.what for p in bad]
     cfg, idx, seed = setup
     rng = random.Random(seed)
     recs = _all_recipes(rng, cfg)
     cls, label, build, kind = recs[idx]
     op = build()
     name = cls or type(op).__name__
-    ps = probe_operator(op, kind, random.Random(seed + 1), name, label, cfg, setup)
+    ps = probe_operator(op, kind, random.Random(seed + 1), name, label, cfg, setup, rebuild=build)
     bad = [p for p in ps if not p.ok and p.key.split(':')[1] == clause]
     return (not bad), [p.what for p in bad]
 
@@ -1782,11 +2237,13 @@ def probes(rng, tier):
     out = []
     seen_classes = set()
     failed_build = []
-    seeds = [rng.randrange(10 ** 6)] if tier == 'quick' else [rng.randrange(10 ** 6) for _ in range(3)]
+    seeds = [rng.randrange(10 ** 6)] if tier == 'quick' else [rng.randrange(10 ** 6) for _ in range(2)]
     for seed in seeds:
         for cfg, _shape in CFGS:
             recs = _all_recipes(random.Random(seed), cfg)
             for idx, (cls, label, build, kind) in enumerate(recs):
+                if tier == 'quick' and label.startswith('~'):
+                    continue
                 try:
                     op = build()
                 except Exception as e:      # noqa
@@ -1795,7 +2252,16 @@ def probes(rng, tier):
                 name = cls or type(op).__name__
                 seen_classes.add(type(op).__name__)
                 # classes reached below the top object (operands) count as covered, too
-                out += probe_operator(op, kind, random.Random(seed + 1), name, label, cfg, (cfg, idx, seed))
+                out += probe_operator(op, kind, random.Random(seed + 1), name, label, cfg, (cfg, idx, seed),
+                                      rebuild=build)
+        for cfg, _shape in CFGS:
+            for i in range(10 if tier == 'quick' else 25):
+                try:
+                    out += tree_probes(cfg, seed, i)
+                    seen_classes.add('ExprTree')
+                except Exception as e:      # noqa
+                    failed_build.append('ExprTree[%s %d]: %s' % (cfg, i, type(e).__name__))
+    seen_classes.discard('ExprTree')
     out += big_layout_probes(random.Random(seeds[0]))
     allc = enumerate_classes()
     names = sorted(set(c.__name__ for c in allc))
